@@ -11,13 +11,14 @@
        canon/Union on the release domain of C09;
      - the recorded counterexamples, evaluated in the model and in the reference specification.
    Not proved: the composition from requirement TEXT (tokenizer + recursive descent) to spans,
-   partial versions, prerelease bounds in and-lists, Cargo / PyPI / Maven operator lemmas; those
+   partial versions, prerelease bounds in and-lists, PyPI / Maven operator lemmas (the Cargo
+   operators are in Properties/C03_cargo.v); those
    are decided on every run by the oracle (Go against the extracted specifications, which are
    re-validated against the real tools) and by the correspondence check.                      *)
 From Coq Require Import String.
 From DepsDev Require Import Lib.Base Semver.Version Semver.Compare Semver.Compare_proofs Semver.Span Semver.Interval
      Semver.Set Semver.Constraint Semver.Span_proofs Semver.Inc_proofs Semver.Set_proofs Semver.Inter_proofs
-     Semver.Witness Semver.C03_proofs Semver.C03_witness Gen.SemverTables Spec.NodeRange.
+     Semver.Witness Semver.C03_proofs Semver.C03_more_proofs Semver.C03_witness Gen.SemverTables Spec.NodeRange.
 Local Open Scope Z_scope.
 
 (* (a0) order *)
@@ -53,6 +54,22 @@ Theorem C03_op_eq_sound : forall pv str M m p, fin M -> fin m -> fin p ->
   npm_sound M m p (op_version_to_span pv go_tokEqual (mk3 str M m p)) OpEq.
 Proof. exact op_eq_sound. Qed.
 Print Assumptions C03_op_eq_sound.
+
+(* <=, > and the caret on a major 0 (added after the first round of review) *)
+Theorem C03_op_le_sound : forall pv str M m p, fin M -> fin m -> fin p ->
+  npm_sound M m p (op_version_to_span pv go_tokLessEqual (mk3 str M m p)) OpLe.
+Proof. exact op_le_sound. Qed.
+Print Assumptions C03_op_le_sound.
+
+Theorem C03_op_gt_sound : forall pv str M m p, fin M -> fin m -> fin p -> p < infinity - 1 ->
+  npm_sound M m p (op_version_to_span pv go_tokGreater (mk3 str M m p)) OpGt.
+Proof. exact op_gt_sound. Qed.
+Print Assumptions C03_op_gt_sound.
+
+Theorem C03_op_caret0_sound : forall pv str M m p, fin M -> fin m -> fin p -> M = 0 ->
+  npm_sound M m p (op_version_to_span pv go_tokCaret (mk3 str M m p)) OpCaret.
+Proof. exact op_caret0_sound. Qed.
+Print Assumptions C03_op_caret0_sound.
 
 (* (b) the prerelease rule *)
 Theorem C03_prerelease_rule : forall mn mx u a b c d e f x y z (op : nop),
